@@ -18,7 +18,7 @@ REPR_ERRORS = (-10, -11, -12)
 
 def configs(ctx: Ctx) -> typing.List[E.Config]:
     if ctx.thorough:
-        return [E.C_ANY, E.C_LITTLE, E.C_BIG, E.C_ANY_ASSERT, E.C_LITTLE_ASSERT, E.C_BIG_ASSERT, E.CPP14, E.CPP17, E.CPP20, E.CPP14_LITTLE, E.CPP17_LITTLE_ASSERT, E.PY]
+        return [E.C_ANY, E.C_LITTLE, E.C_BIG, E.C_ANY_ASSERT, E.C_LITTLE_ASSERT, E.C_BIG_ASSERT, E.CPP14, E.CPP17, E.CPP20, E.CPP14_LITTLE, E.CPP17_LITTLE_ASSERT, E.CPP17_PMR, E.PY]
     return [E.C_ANY, E.C_LITTLE, E.C_BIG_ASSERT, E.CPP14, E.CPP17_LITTLE_ASSERT, E.PY]
 
 
@@ -160,7 +160,7 @@ def run(ctx: Ctx) -> int:
     return ctx.finish(
         "exploration",
         cov,
-        ["PyDSDL 1.25 model and vf/codec/ref.py (reference encoder) are the trusted base", "gcc 12 / g++ 12, x86-64 little-endian host", "cetl++14-17 and c++17-pmr flavours are not executed here (see DESIGN)"],
+        ["PyDSDL 1.25 model and vf/codec/ref.py (reference encoder) are the trusted base", "gcc 12 / g++ 12, x86-64 little-endian host", "the cetl++14-17 flavour is not executed here (CETL submodule empty; see DESIGN); c++17-pmr runs with the default memory resource"],
         min_outcomes=("evaluations", 1000),
     )
 
